@@ -1,5 +1,1326 @@
-(* Proofs for property C14 (stored paths). *)
+(* Proofs for property C14 (stored paths read back unchanged; live paths never lose files).
+   Part A: the three text files and load_path; Part B: the deletion machine. *)
 From Coq Require Import ZArith QArith Qabs List Bool Lia Arith.
 Import ListNotations.
-From Inf Require Import gen.ParamsC14 model.CodecM proofs.CodecP model.StoreM.
+From Inf Require Import base.ListX gen.ParamsC14 model.CodecM proofs.CodecP model.StoreM.
 Open Scope Z_scope.
+
+(* ================================================================== strings *)
+
+Lemma spaces_app a b : spaces (a ++ b) <-> spaces a /\ spaces b.
+Proof. unfold spaces. rewrite forallb_app, andb_true_iff. tauto. Qed.
+
+Lemma spaces_rev s : spaces s -> spaces (rev s).
+Proof. unfold spaces. rewrite !forallb_forall. intros H x Hx. apply H. now apply in_rev. Qed.
+
+Lemma tokens_aux_all_spaces b : spaces b -> forall cur, tokens_aux cur b = tokens_aux cur [].
+Proof.
+  intros Hb cur. destruct b as [|c b]; [reflexivity|].
+  unfold spaces in Hb. cbn [forallb] in Hb. apply andb_true_iff in Hb. destruct Hb as [Hc Hb].
+  cbn [tokens_aux]. rewrite Hc.
+  assert (E : tokens_aux [] b = []).
+  { rewrite <- (app_nil_r b). now rewrite tokens_aux_spaces. }
+  rewrite E. reflexivity.
+Qed.
+
+Lemma tokens_aux_trailing b : spaces b -> forall a cur, tokens_aux cur (a ++ b) = tokens_aux cur a.
+Proof.
+  intros Hb. induction a as [|c a IH]; intros cur.
+  - cbn [app]. now apply tokens_aux_all_spaces.
+  - cbn [app tokens_aux]. destruct (is_space c); [destruct (is_nil cur)|]; now rewrite IH.
+Qed.
+
+Lemma lstrip_decomp s : exists sp, spaces sp /\ s = sp ++ lstrip s.
+Proof.
+  induction s as [|c s (sp & Hsp & E)]; [exists []; split; reflexivity|].
+  cbn [lstrip]. destruct (is_space c) eqn:Ec.
+  - exists (c :: sp). split; [unfold spaces; cbn [forallb]; now rewrite Ec|]. cbn [app]. now f_equal.
+  - exists []. split; reflexivity.
+Qed.
+
+Lemma lstrip_hd s : match lstrip s with c :: _ => is_space c = false | [] => True end.
+Proof.
+  induction s as [|c s IH]; [exact I|]. cbn [lstrip]. destruct (is_space c) eqn:Ec; [exact IH|exact Ec].
+Qed.
+
+Lemma rstrip_decomp s : exists sp, spaces sp /\ s = rstrip s ++ sp.
+Proof.
+  destruct (lstrip_decomp (rev s)) as (sp & Hsp & E). exists (rev sp). split; [now apply spaces_rev|].
+  unfold rstrip. rewrite <- rev_app_distr, <- E. symmetry. apply rev_involutive.
+Qed.
+
+Lemma tokens_lstrip s : tokens (lstrip s) = tokens s.
+Proof.
+  destruct (lstrip_decomp s) as (sp & Hsp & E). unfold tokens. rewrite E at 2. now rewrite tokens_aux_spaces.
+Qed.
+
+Lemma tokens_rstrip s : tokens (rstrip s) = tokens s.
+Proof.
+  destruct (rstrip_decomp s) as (sp & Hsp & E). unfold tokens. rewrite E at 2. now rewrite tokens_aux_trailing.
+Qed.
+
+Lemma tokens_strip s : tokens (strip s) = tokens s.
+Proof. unfold strip. now rewrite tokens_rstrip, tokens_lstrip. Qed.
+
+Lemma rstrip_hd c r : is_space c = false -> exists r', rstrip (c :: r) = c :: r'.
+Proof.
+  intros Hc. destruct (rstrip_decomp (c :: r)) as (sp & Hsp & E).
+  destruct (rstrip (c :: r)) as [|c' r'] eqn:Er.
+  - cbn [app] in E. subst sp. unfold spaces in Hsp. cbn [forallb] in Hsp. rewrite Hc in Hsp. discriminate.
+  - cbn [app] in E. injection E as -> _. now exists r'.
+Qed.
+
+Lemma is_comment_strip s : is_comment (strip s) = is_comment (lstrip s).
+Proof.
+  unfold strip. pose proof (lstrip_hd s) as H. destruct (lstrip s) as [|c r]; [reflexivity|].
+  destruct (rstrip_hd c r H) as (r' & ->). reflexivity.
+Qed.
+
+(* a line that starts with a character which is neither blank nor "#" *)
+Lemma not_comment_line k c r : is_space c = false -> c <> c_hash ->
+  is_comment (strip (repeat c_sp k ++ c :: r)) = false.
+Proof.
+  intros Hc Hh. rewrite is_comment_strip, lstrip_spaces_app by apply spaces_repeat.
+  rewrite lstrip_first by exact Hc. cbn [is_comment]. now apply Z.eqb_neq.
+Qed.
+
+(* ---- no line break inside a line *)
+Definition nonl (s : str) : Prop := forallb (fun c => negb (c =? c_nl)) s = true.
+
+Lemma nonl_app a b : nonl (a ++ b) <-> nonl a /\ nonl b.
+Proof. unfold nonl. rewrite forallb_app, andb_true_iff. tauto. Qed.
+
+Lemma nonl_no_char s : nonl s -> no_char c_nl s.
+Proof.
+  unfold nonl, no_char. rewrite forallb_forall. intros H Hin. specialize (H _ Hin).
+  rewrite Z.eqb_refl in H. discriminate.
+Qed.
+
+Lemma nonl_nospace s : no_space s -> nonl s.
+Proof.
+  unfold no_space, nonl. rewrite !forallb_forall. intros H x Hx. specialize (H x Hx).
+  destruct (Z.eqb_spec x c_nl) as [->|]; [discriminate H|reflexivity].
+Qed.
+
+Lemma nonl_repeat_sp k : nonl (repeat c_sp k).
+Proof. unfold nonl. induction k; cbn; auto. Qed.
+
+Lemma nonl_join sep l : nonl sep -> Forall nonl l -> nonl (join_with sep l).
+Proof.
+  intros Hs. induction 1 as [|a r Ha Hr IH]; [reflexivity|].
+  destruct r as [|b r']; [exact Ha|].
+  change (join_with sep (a :: b :: r')) with (a ++ sep ++ join_with sep (b :: r')).
+  apply nonl_app. split; [exact Ha|]. apply nonl_app. split; [exact Hs|exact IH].
+Qed.
+
+Lemma nonl_concat l : Forall nonl l -> nonl (concat l).
+Proof. induction 1; [reflexivity|]. cbn [concat]. apply nonl_app. now split. Qed.
+
+(* split_lines undoes render *)
+Lemma split_render ls : Forall nonl ls -> split_lines (render ls) = map (fun l => l ++ [c_nl]) ls.
+Proof.
+  intros H. unfold render. apply split_concat. apply proper_all_term.
+  induction H as [|l r Hl Hr IH]; cbn [map]; constructor; [|exact IH].
+  exists l. split; [reflexivity|now apply nonl_no_char].
+Qed.
+
+Lemma tokens_line l : tokens (strip (l ++ [c_nl])) = tokens l.
+Proof. rewrite tokens_strip. unfold tokens. now rewrite tokens_aux_trailing. Qed.
+
+Lemma lstrip_app_nonblank l r : lstrip l <> [] -> lstrip (l ++ r) = lstrip l ++ r.
+Proof.
+  induction l as [|c l IH]; intros H; [now destruct H|]. cbn [lstrip app] in *.
+  destruct (is_space c); [now apply IH|reflexivity].
+Qed.
+
+Lemma is_comment_line l : lstrip l <> [] -> is_comment (strip (l ++ [c_nl])) = is_comment (lstrip l).
+Proof.
+  intros H. rewrite is_comment_strip, lstrip_app_nonblank by exact H.
+  destruct (lstrip l); [now destruct H|reflexivity].
+Qed.
+
+(* ================================================================== integers *)
+
+Lemma int_digits_cons n : 0 <= n -> exists c r, int_digits n = c :: r /\ is_digit c = true.
+Proof.
+  intros Hn. pose proof (int_digits_nonempty n Hn) as Hne.
+  pose proof (fixed_digits_digits (ndigits n) n) as Hd. fold (int_digits n) in Hd.
+  destruct (int_digits n) as [|c r]; [now destruct Hne|]. cbn [forallb] in Hd.
+  apply andb_true_iff in Hd. exists c, r. split; [reflexivity|apply Hd].
+Qed.
+
+Lemma int_digits_all n : 0 <= n -> all_digits (int_digits n) = true.
+Proof.
+  intros Hn. unfold all_digits. destruct (int_digits_cons n Hn) as (c & r & E & _).
+  pose proof (fixed_digits_digits (ndigits n) n) as Hd. fold (int_digits n) in Hd.
+  rewrite Hd, E. reflexivity.
+Qed.
+
+Lemma digit_bounds c : is_digit c = true -> 48 <= c <= 57.
+Proof. unfold is_digit. intros H. apply andb_true_iff in H. destruct H as [H1 H2]. apply Z.leb_le in H1, H2. lia. Qed.
+
+Lemma parse_int_str z : parse_int (int_str z) = Some z.
+Proof.
+  unfold int_str. destruct (Z.ltb_spec z 0) as [Hz|Hz].
+  - cbn [app parse_int]. rewrite Z.eqb_refl. rewrite int_digits_all, int_digits_value by lia. f_equal. lia.
+  - cbn [app]. destruct (int_digits_cons (Z.abs z) ltac:(lia)) as (c & r & E & Hc).
+    pose proof (int_digits_all (Z.abs z) ltac:(lia)) as Ha.
+    pose proof (int_digits_value (Z.abs z) ltac:(lia)) as Hv. rewrite E in *.
+    apply digit_bounds in Hc. unfold parse_int.
+    destruct (Z.eqb_spec c c_minus) as [Em|_]; [unfold c_minus in Em; lia|].
+    destruct (Z.eqb_spec c c_plus) as [Em|_]; [unfold c_plus in Em; lia|].
+    rewrite Ha, Hv. f_equal. lia.
+Qed.
+
+Lemma int_str_nospace z : no_space (int_str z).
+Proof.
+  unfold int_str. apply no_space_app. split; [destruct (z <? 0); reflexivity|].
+  unfold int_digits. apply fixed_digits_nospace.
+Qed.
+
+Lemma int_str_nonempty z : int_str z <> [].
+Proof.
+  unfold int_str. intros E. apply app_eq_nil in E. destruct E as [_ E].
+  revert E. apply int_digits_nonempty. lia.
+Qed.
+
+Lemma int_str_nat_hd i : exists c r, int_str (Z.of_nat i) = c :: r /\ is_space c = false /\ c <> c_hash.
+Proof.
+  unfold int_str. destruct (Z.ltb_spec (Z.of_nat i) 0) as [H|H]; [lia|]. cbn [app].
+  destruct (int_digits_cons (Z.abs (Z.of_nat i)) ltac:(lia)) as (c & r & E & Hc). exists c, r.
+  split; [exact E|]. apply digit_bounds in Hc. split.
+  - unfold is_space. repeat (apply orb_false_iff; split).
+    + apply Z.eqb_neq; lia.
+    + apply andb_false_iff. right. apply Z.leb_gt; lia.
+    + apply andb_false_iff. right. apply Z.leb_gt; lia.
+  - unfold c_hash. lia.
+Qed.
+
+(* ================================================================== float fields *)
+
+Lemma fbody_nospace d v : no_space (fbody d v).
+Proof. destruct v as [x|]; [apply fixed_body_nospace|reflexivity]. Qed.
+
+Lemma fbody_nonempty d v : fbody d v <> [].
+Proof. destruct v as [x|]; [apply fixed_body_nonempty|discriminate]. Qed.
+
+Lemma fixed_body_hd d nz x : exists c r, fixed_body d nz x = c :: r /\ c <> 110.
+Proof.
+  unfold fixed_body. destruct (is_neg nz x).
+  - cbn [app]. eexists _, _. split; [reflexivity|]. unfold c_minus. lia.
+  - cbn [app]. destruct (int_digits_cons (Z.abs (scaled d x) / pow10 d) (scaled_div_nonneg d x)) as (c & r & E & Hc).
+    rewrite E. cbn [app]. eexists _, _. split; [reflexivity|]. apply digit_bounds in Hc. lia.
+Qed.
+
+Lemma parse_field_body d v : parse_field (fbody d v) = Some (rnd d v).
+Proof.
+  destruct v as [[nz x]|]; [|reflexivity]. cbn [fbody rnd option_map fst snd]. unfold parse_field.
+  destruct (fixed_body_hd d nz x) as (c & r & E & Hc).
+  assert (Hne : str_eqb (fixed_body d nz x) nan_str = false).
+  { rewrite E. unfold nan_str. cbn [str_eqb]. destruct (Z.eqb_spec c 110); [contradiction|reflexivity]. }
+  rewrite Hne, parse_fixed_body. reflexivity.
+Qed.
+
+Lemma sequence_fields d vs : sequence (map parse_field (map (fbody d) vs)) = Some (map (rnd d) vs).
+Proof.
+  induction vs as [|v r IH]; [reflexivity|]. cbn [map sequence]. rewrite parse_field_body, IH. reflexivity.
+Qed.
+
+(* the written precision: half a unit of the last written decimal *)
+Lemma rnd_error d v q : rnd d (Some v) = Some q -> (Qabs (q - snd v) <= 1 # (2 * pow10p d))%Q.
+Proof. cbn. intros E. injection E as <-. apply round_d_error. Qed.
+
+(* ================================================================== tokens of a formatted line *)
+
+Definition cell_of (c t : str) : Prop := (exists k, c = repeat c_sp k ++ t) /\ no_space t /\ t <> [].
+
+Lemma pad_left_cell w t : no_space t -> t <> [] -> cell_of (pad_left w t) t.
+Proof. intros H1 H2. split; [now exists (w - length t)%nat|split; assumption]. Qed.
+
+Lemma tokens_join sep cells toks : spaces sep -> sep <> [] -> Forall2 cell_of cells toks ->
+  tokens (join_with sep cells) = toks.
+Proof.
+  intros Hsp Hne H. unfold tokens. induction H as [|c t cs ts ((k & ->) & Ht & Htn) Hr IH]; [reflexivity|].
+  destruct cs as [|c2 cs'].
+  - inversion Hr; subst. cbn [join_with]. rewrite tokens_aux_spaces by apply spaces_repeat.
+    now apply tokens_tok_end.
+  - change (join_with sep ((repeat c_sp k ++ t) :: c2 :: cs')) with ((repeat c_sp k ++ t) ++ sep ++ join_with sep (c2 :: cs')).
+    rewrite <- app_assoc, tokens_aux_spaces by apply spaces_repeat.
+    destruct sep as [|s sep']; [now destruct Hne|].
+    unfold spaces in Hsp. cbn [forallb] in Hsp. apply andb_true_iff in Hsp. destruct Hsp as [Hs Hsp'].
+    rewrite <- app_comm_cons, tokens_tok_sp by assumption. rewrite tokens_aux_spaces by exact Hsp'.
+    f_equal. exact IH.
+Qed.
+
+Lemma join_first_cell sep c t cs : cell_of c t ->
+  exists k x r, join_with sep (c :: cs) = repeat c_sp k ++ x :: r /\ hd 0 t = x.
+Proof.
+  intros ((k & ->) & _ & Hne). destruct t as [|x t']; [now destruct Hne|].
+  destruct cs as [|c2 cs'].
+  - exists k, x, t'. cbn [join_with]. split; reflexivity.
+  - exists k, x, (t' ++ sep ++ join_with sep (c2 :: cs')).
+    change (join_with sep ((repeat c_sp k ++ x :: t') :: c2 :: cs')) with ((repeat c_sp k ++ x :: t') ++ sep ++ join_with sep (c2 :: cs')).
+    rewrite <- app_assoc. split; reflexivity.
+Qed.
+
+(* " ".join([first] + fields) *)
+Lemma concat_sp_join {A} (f : A -> str) vs : forall a,
+  a ++ concat (map (fun v => c_sp :: f v) vs) = join_with [c_sp] (a :: map f vs).
+Proof.
+  induction vs as [|v r IH]; intros a; [cbn; apply app_nil_r|].
+  cbn [map concat]. change (join_with [c_sp] (a :: f v :: map f r)) with (a ++ [c_sp] ++ join_with [c_sp] (f v :: map f r)).
+  rewrite <- IH. reflexivity.
+Qed.
+
+Lemma num_line_join iw w d i vs :
+  num_line iw w d i vs = join_with [c_sp] (pad_left iw (int_str (Z.of_nat i)) :: map (print_field w d) vs).
+Proof. unfold num_line. apply concat_sp_join. Qed.
+
+Lemma num_line_cells iw w d i vs :
+  Forall2 cell_of (pad_left iw (int_str (Z.of_nat i)) :: map (print_field w d) vs)
+                  (int_str (Z.of_nat i) :: map (fbody d) vs).
+Proof.
+  constructor; [apply pad_left_cell; [apply int_str_nospace|apply int_str_nonempty]|].
+  induction vs as [|v r IH]; cbn [map]; constructor; [|exact IH].
+  unfold print_field. apply pad_left_cell; [apply fbody_nospace|apply fbody_nonempty].
+Qed.
+
+Lemma num_line_tokens iw w d i vs :
+  tokens (num_line iw w d i vs) = int_str (Z.of_nat i) :: map (fbody d) vs.
+Proof.
+  rewrite num_line_join. apply tokens_join; [reflexivity|discriminate|apply num_line_cells].
+Qed.
+
+Lemma num_line_nonl iw w d i vs : nonl (num_line iw w d i vs).
+Proof.
+  rewrite num_line_join. apply nonl_join; [reflexivity|].
+  constructor.
+  - unfold pad_left. apply nonl_app. split; [apply nonl_repeat_sp|apply nonl_nospace, int_str_nospace].
+  - induction vs as [|v r IH]; cbn [map]; constructor; [|exact IH].
+    unfold print_field, pad_left. apply nonl_app. split; [apply nonl_repeat_sp|apply nonl_nospace, fbody_nospace].
+Qed.
+
+Lemma num_line_parse iw w d i vs :
+  parse_numrow (strip (num_line iw w d i vs ++ [c_nl])) = Some (Some (inject_Z (Z.of_nat i)) :: map (rnd d) vs).
+Proof.
+  unfold parse_numrow. rewrite tokens_line, num_line_tokens, parse_int_str, sequence_fields. reflexivity.
+Qed.
+
+Lemma join_not_comment sep cs i ts : Forall2 cell_of cs (int_str (Z.of_nat i) :: ts) ->
+  is_comment (strip (join_with sep cs ++ [c_nl])) = false.
+Proof.
+  intros Hc. inversion Hc as [|c t cs' ts' Hcell Hrest]; subst.
+  destruct (join_first_cell sep c _ cs' Hcell) as (k & x & r & E & Hx).
+  rewrite E. destruct (int_str_nat_hd i) as (c0 & r' & Ei & Hsp & Hh). rewrite Ei in Hx. cbn [hd] in Hx. subst x.
+  rewrite <- app_assoc, <- app_comm_cons. now apply not_comment_line.
+Qed.
+
+Lemma num_line_not_comment iw w d i vs : is_comment (strip (num_line iw w d i vs ++ [c_nl])) = false.
+Proof. rewrite num_line_join. eapply join_not_comment. apply num_line_cells. Qed.
+
+(* ================================================================== the reader *)
+
+Section ReaderP.
+  Context {T : Type}.
+  Variable parse : str -> option (list T).
+
+  Definition data_line (n : nat) (l : str) (r : list T) : Prop :=
+    is_comment (strip l) = false /\ parse (strip l) = Some r /\ length r = n /\ r <> [].
+
+  Lemma first_block_data n : forall lines rows, Forall2 (data_line n) lines rows ->
+    forall ncol rc acc, (ncol = None \/ ncol = Some n) ->
+    first_block parse lines ncol true rc acc = Some (rev acc ++ rows).
+  Proof.
+    induction 1 as [|l r ls rs (Hc & Hp & Hn & Hne) Hrest IH]; intros ncol rc acc Hncol.
+    - cbn [first_block]. now rewrite app_nil_r.
+    - cbn [first_block]. rewrite Hc, Hp.
+      assert (Hsame : (match ncol with None => true | Some m => (length r =? m)%nat end) = true).
+      { destruct Hncol as [->| ->]; [reflexivity|]. rewrite Hn. apply Nat.eqb_refl. }
+      rewrite Hsame. destruct r as [|x r']; [now destruct Hne|]. cbn [is_nil negb andb].
+      rewrite IH by (right; now rewrite Hn). cbn [rev]. now rewrite <- app_assoc.
+  Qed.
+
+  (* a file made of two comment lines followed by data lines *)
+  Lemma read_block_file n c1 c2 dl rows :
+    nonl c1 -> nonl c2 -> Forall nonl dl ->
+    is_comment (strip (c1 ++ [c_nl])) = true -> is_comment (strip (c2 ++ [c_nl])) = true ->
+    Forall2 (data_line n) (map (fun l => l ++ [c_nl]) dl) rows ->
+    read_block parse (render (c1 :: c2 :: dl)) = Some rows.
+  Proof.
+    intros H1 H2 Hd Hc1 Hc2 Hrows. unfold read_block.
+    rewrite split_render by (constructor; [exact H1|constructor; [exact H2|exact Hd]]).
+    cbn [map first_block]. rewrite Hc1, Hc2.
+    rewrite (first_block_data n _ _ Hrows) by now left. reflexivity.
+  Qed.
+End ReaderP.
+
+(* ================================================================== facts about the generated parameters *)
+
+Lemma cyc_a_hash : exists r, cyc_a = c_hash :: r.
+Proof. eexists. reflexivity. Qed.
+Lemma nonl_cyc : nonl cyc_a /\ nonl cyc_b /\ nonl cyc_c /\ nonl store_status.
+Proof. repeat split; reflexivity. Qed.
+Lemma headers_ok :
+  (nonl order_header /\ is_comment (strip (order_header ++ [c_nl])) = true) /\
+  (nonl energy_header /\ is_comment (strip (energy_header ++ [c_nl])) = true) /\
+  (nonl traj_header /\ is_comment (strip (traj_header ++ [c_nl])) = true).
+Proof. repeat split; vm_compute; reflexivity. Qed.
+Lemma traj_w_len : length traj_w = 4%nat.
+Proof. reflexivity. Qed.
+Lemma traj_sep_ok : spaces (repeat c_sp traj_sep) /\ repeat c_sp traj_sep <> [].
+Proof. split; [apply spaces_repeat|vm_compute; discriminate]. Qed.
+Lemma traj_vals_differ : (traj_fwd_val =? traj_rev_val) = false.
+Proof. reflexivity. Qed.
+Lemma energy_cols_ok : (energy_vpot_col < energy_nterms)%nat /\ (energy_ekin_col < energy_nterms)%nat.
+Proof. split; vm_compute; lia. Qed.
+Lemma txt_names_differ : order_txt <> energy_txt /\ order_txt <> traj_txt /\ energy_txt <> traj_txt.
+Proof. repeat split; vm_compute; discriminate. Qed.
+
+Lemma cycle_line2_ok step : nonl (cycle_line2 step) /\ is_comment (strip (cycle_line2 step ++ [c_nl])) = true.
+Proof.
+  destruct nonl_cyc as (Ha & Hb & Hc & Hs). split.
+  - unfold cycle_line2. apply nonl_app; split; [exact Ha|]. apply nonl_app; split; [apply nonl_nospace, int_str_nospace|].
+    apply nonl_app; split; assumption.
+  - destruct cyc_a_hash as (r & E). unfold cycle_line2. rewrite E. rewrite is_comment_line; reflexivity || discriminate.
+Qed.
+
+Lemma cycle_line3_ok step move : nonl move ->
+  nonl (cycle_line3 step move) /\ is_comment (strip (cycle_line3 step move ++ [c_nl])) = true.
+Proof.
+  intros Hm. destruct nonl_cyc as (Ha & Hb & Hc & Hs). destruct (cycle_line2_ok step) as (H2 & _). split.
+  - unfold cycle_line3. apply nonl_app; split; [exact H2|]. apply nonl_app; split; assumption.
+  - destruct cyc_a_hash as (r & E). unfold cycle_line3, cycle_line2. rewrite E. rewrite is_comment_line; reflexivity || discriminate.
+Qed.
+
+Lemma energy_vals_spec fr :
+  length (energy_vals fr) = energy_nterms /\
+  nth energy_vpot_col (energy_vals fr) None = f_vpot fr /\ nth energy_ekin_col (energy_vals fr) None = f_ekin fr.
+Proof. unfold energy_vals. rewrite map_length, seq_length. repeat split; reflexivity. Qed.
+
+(* ================================================================== the lines of the three files *)
+
+Lemma enum_rows {A B} (R : A -> B -> Prop) (f : nat -> frame -> A) (g : nat -> frame -> B) p :
+  (forall i fr, In fr p -> R (f i fr) (g i fr)) ->
+  forall i0, Forall2 R (map (fun x => f (fst x) (snd x)) (enum_from i0 p)) (map (fun x => g (fst x) (snd x)) (enum_from i0 p)).
+Proof.
+  induction p as [|fr r IH]; intros H i0; [constructor|]. cbn [enum_from map fst snd]. constructor.
+  - apply H. now left.
+  - apply IH. intros i fr' Hin. apply H. now right.
+Qed.
+
+Lemma lines_of_nonl f p : (forall i fr, nonl (f i fr)) -> Forall nonl (lines_of f p).
+Proof. intros H. unfold lines_of. apply Forall_forall. intros l Hl. apply in_map_iff in Hl. destruct Hl as (x & <- & _). apply H. Qed.
+
+Definition num_row (d : nat) (vals : frame -> list fval) (i : nat) (fr : frame) : list (option Q) :=
+  Some (inject_Z (Z.of_nat i)) :: map (rnd d) (vals fr).
+
+Lemma num_file_rows iw w d (vals : frame -> list fval) n p :
+  Forall (fun fr => length (vals fr) = n) p ->
+  Forall2 (data_line parse_numrow (S n))
+          (map (fun l => l ++ [c_nl]) (lines_of (fun i fr => num_line iw w d i (vals fr)) p))
+          (map (fun x => num_row d vals (fst x) (snd x)) (enum_from 0 p)).
+Proof.
+  intros Hn. unfold lines_of. rewrite map_map.
+  apply (enum_rows (data_line parse_numrow (S n)) (fun i fr => num_line iw w d i (vals fr) ++ [c_nl]) (num_row d vals)).
+  intros i fr Hin. rewrite Forall_forall in Hn. specialize (Hn fr Hin). unfold data_line, num_row.
+  rewrite num_line_not_comment, num_line_parse. repeat split; [|discriminate].
+  cbn [length]. now rewrite map_length, Hn.
+Qed.
+
+Definition name_ok (fr : frame) : Prop := no_space (basename (f_file fr)) /\ basename (f_file fr) <> [].
+
+Lemma combine_cells : forall ws cells, length ws = length cells -> Forall (fun t => no_space t /\ t <> []) cells ->
+  Forall2 cell_of (map (fun wc => pad_left (fst wc) (snd wc)) (combine ws cells)) cells.
+Proof.
+  induction ws as [|w ws IH]; intros [|c cells] Hl Hc; try discriminate; [constructor|].
+  inversion Hc as [|? ? (H1 & H2) Hr]; subst. cbn [combine map fst snd]. constructor; [now apply pad_left_cell|].
+  apply IH; [now injection Hl|exact Hr].
+Qed.
+
+Lemma traj_cells_ok i fr : name_ok fr -> Forall (fun t => no_space t /\ t <> []) (traj_cells i fr).
+Proof.
+  intros (Hb & Hbn). unfold traj_cells. repeat constructor; try apply int_str_nospace; try apply int_str_nonempty; assumption.
+Qed.
+
+Lemma traj_line_cells i fr : name_ok fr ->
+  Forall2 cell_of (map (fun wc => pad_left (fst wc) (snd wc)) (combine traj_w (traj_cells i fr))) (traj_cells i fr).
+Proof. intros H. apply combine_cells; [apply traj_w_len|now apply traj_cells_ok]. Qed.
+
+Lemma traj_line_tokens i fr : name_ok fr -> tokens (traj_line i fr) = traj_cells i fr.
+Proof.
+  intros H. unfold traj_line. destruct traj_sep_ok as (Hs & Hne). apply tokens_join; [exact Hs|exact Hne|now apply traj_line_cells].
+Qed.
+
+Lemma cells_nonl cs ts : Forall2 cell_of cs ts -> Forall nonl cs.
+Proof.
+  induction 1 as [|c t cs ts ((k & ->) & Ht & _) _ IH]; constructor; [|exact IH].
+  apply nonl_app. split; [apply nonl_repeat_sp|now apply nonl_nospace].
+Qed.
+
+Lemma traj_line_nonl i fr : name_ok fr -> nonl (traj_line i fr).
+Proof.
+  intros H. unfold traj_line. apply nonl_join; [apply nonl_repeat_sp|].
+  exact (cells_nonl _ _ (traj_line_cells i fr H)).
+Qed.
+
+Lemma traj_line_not_comment i fr : name_ok fr -> is_comment (strip (traj_line i fr ++ [c_nl])) = false.
+Proof.
+  intros H. unfold traj_line. eapply join_not_comment. pose proof (traj_line_cells i fr H) as Hc. unfold traj_cells at 2 in Hc. exact Hc.
+Qed.
+
+Lemma traj_file_rows p : Forall name_ok p ->
+  Forall2 (data_line parse_tokens 4) (map (fun l => l ++ [c_nl]) (lines_of traj_line p))
+          (map (fun x => traj_cells (fst x) (snd x)) (enum_from 0 p)).
+Proof.
+  intros Hn. unfold lines_of. rewrite map_map.
+  apply (enum_rows (data_line parse_tokens 4) (fun i fr => traj_line i fr ++ [c_nl]) traj_cells).
+  intros i fr Hin. rewrite Forall_forall in Hn. specialize (Hn fr Hin). unfold data_line, parse_tokens.
+  rewrite traj_line_not_comment, tokens_line, traj_line_tokens by exact Hn. repeat split. discriminate.
+Qed.
+
+(* what the reader returns for the three files *)
+Lemma read_traj_file step p : Forall name_ok p ->
+  read_block parse_tokens (render (traj_file step p)) = Some (map (fun x => traj_cells (fst x) (snd x)) (enum_from 0 p)).
+Proof.
+  intros Hn. destruct (cycle_line2_ok step) as (H1 & H1c). destruct headers_ok as (_ & _ & H2 & H2c).
+  unfold traj_file. apply (read_block_file parse_tokens 4); try assumption.
+  - apply Forall_forall. intros l Hl. unfold lines_of in Hl. apply in_map_iff in Hl. destruct Hl as ((i, fr) & <- & Hin).
+    apply traj_line_nonl. rewrite Forall_forall in Hn. apply Hn.
+    clear - Hin. revert Hin. generalize 0%nat. induction p as [|a r IH]; intros n0 Hin; [destruct Hin|].
+    cbn [enum_from] in Hin. destruct Hin as [E|Hin]; [injection E as _ <-; now left|right; eapply IH; exact Hin].
+  - now apply traj_file_rows.
+Qed.
+
+Lemma read_num_file iw w d vals n c1 c2 p :
+  nonl c1 -> nonl c2 -> is_comment (strip (c1 ++ [c_nl])) = true -> is_comment (strip (c2 ++ [c_nl])) = true ->
+  Forall (fun fr => length (vals fr) = n) p ->
+  read_block parse_numrow (render (c1 :: c2 :: lines_of (fun i fr => num_line iw w d i (vals fr)) p))
+  = Some (map (fun x => num_row d vals (fst x) (snd x)) (enum_from 0 p)).
+Proof.
+  intros H1 H2 H1c H2c Hn. apply (read_block_file parse_numrow (S n)); try assumption.
+  - apply lines_of_nonl. intros i fr. apply num_line_nonl.
+  - now apply num_file_rows.
+Qed.
+
+Lemma read_order_file step move n p : nonl move -> Forall (fun fr => length (f_orders fr) = n) p ->
+  read_block parse_numrow (render (order_file step move p))
+  = Some (map (fun x => num_row order_d f_orders (fst x) (snd x)) (enum_from 0 p)).
+Proof.
+  intros Hm Hn. destruct (cycle_line3_ok step move Hm) as (H1 & H1c). destruct headers_ok as ((H2 & H2c) & _).
+  unfold order_file, order_line. now apply (read_num_file order_iw order_w order_d f_orders n).
+Qed.
+
+Lemma read_energy_file step move p : nonl move ->
+  read_block parse_numrow (render (energy_file step move p))
+  = Some (map (fun x => num_row energy_d energy_vals (fst x) (snd x)) (enum_from 0 p)).
+Proof.
+  intros Hm. destruct (cycle_line3_ok step move Hm) as (H1 & H1c). destruct headers_ok as (_ & (H2 & H2c) & _).
+  unfold energy_file, energy_line. apply (read_num_file energy_iw energy_w energy_d energy_vals energy_nterms); try assumption.
+  apply Forall_forall. intros fr _. apply energy_vals_spec.
+Qed.
+
+(* ================================================================== file names *)
+
+Definition no_slash (s : str) : Prop := has_slash s = false.
+
+Lemma has_slash_app a b : has_slash (a ++ b) = has_slash a || has_slash b.
+Proof. unfold has_slash. apply existsb_app. Qed.
+
+Lemma basename_noslash_id b : no_slash b -> basename b = b.
+Proof.
+  unfold no_slash. induction b as [|c r IH]; intros H; [reflexivity|].
+  cbn [has_slash existsb] in H. apply orb_false_iff in H. destruct H as [Hc Hr].
+  cbn [basename]. unfold has_slash. rewrite Hr. rewrite Z.eqb_sym, Hc. reflexivity.
+Qed.
+
+Lemma basename_after_slash b : no_slash b -> forall a, basename (a ++ c_slash :: b) = b.
+Proof.
+  unfold no_slash. intros Hb. induction a as [|c a IH].
+  - cbn [app basename]. rewrite Hb, Z.eqb_refl. reflexivity.
+  - cbn [app basename]. rewrite has_slash_app. cbn [has_slash existsb]. rewrite Z.eqb_refl, orb_true_r. exact IH.
+Qed.
+
+Lemma basename_noslash s : no_slash (basename s).
+Proof.
+  unfold no_slash. induction s as [|c r IH]; [reflexivity|]. cbn [basename].
+  destruct (has_slash r) eqn:Hr; [exact IH|]. destruct (Z.eqb_spec c c_slash) as [E|E]; [exact Hr|].
+  unfold has_slash in *. cbn [existsb]. rewrite Hr, orb_false_r. apply Z.eqb_neq. congruence.
+Qed.
+
+Lemma ends_slash_split a : ends_slash a = true -> exists a0, a = a0 ++ [c_slash].
+Proof.
+  unfold ends_slash. destruct (rev a) as [|c x] eqn:E; [discriminate|]. intros H. apply Z.eqb_eq in H. subst c.
+  exists (rev x). rewrite <- (rev_involutive a), E. reflexivity.
+Qed.
+
+Lemma basename_pjoin a b : no_slash b -> basename (pjoin a b) = b.
+Proof.
+  intros Hb. unfold pjoin. destruct (is_nil a); [now apply basename_noslash_id|].
+  destruct (ends_slash a) eqn:E.
+  - destruct (ends_slash_split a E) as (a0 & ->). rewrite <- app_assoc. cbn [app]. now apply basename_after_slash.
+  - now apply basename_after_slash.
+Qed.
+
+Lemma pjoin_inj a x y : pjoin a x = pjoin a y -> x = y.
+Proof.
+  unfold pjoin. destruct (is_nil a); [auto|]. destruct (ends_slash a); intros H; apply app_inv_head in H; [exact H|now injection H].
+Qed.
+
+Lemma dst_idem target s : dst target (dst target s) = dst target s.
+Proof. unfold dst. rewrite basename_pjoin by apply basename_noslash. reflexivity. Qed.
+
+Lemma firstn_noslash k s : no_slash s -> no_slash (firstn k s).
+Proof.
+  unfold no_slash, has_slash. intros H. destruct (existsb (Z.eqb c_slash) (firstn k s)) eqn:E; [|reflexivity].
+  apply existsb_exists in E. destruct E as (x & Hin & Hx). apply firstn_In in Hin.
+  assert (existsb (Z.eqb c_slash) s = true) by (apply existsb_exists; eauto). congruence.
+Qed.
+
+Lemma stem_noslash b : no_slash b -> no_slash (stem b).
+Proof.
+  intros H. unfold stem. destruct (last_dot b 0 None) as [k|]; [|exact H].
+  destruct (forallb (Z.eqb c_dot) (firstn k b)); [exact H|now apply firstn_noslash].
+Qed.
+
+(* ================================================================== the disk *)
+
+Lemma str_eqb_spec a b : reflect (a = b) (str_eqb a b).
+Proof. destruct (str_eqb a b) eqn:E; constructor; [now apply str_eqb_eq|]. intros H. apply str_eqb_eq in H. congruence. Qed.
+
+Lemma fs_get_del d k k' : fs_get (fs_del d k) k' = if str_eqb k' k then None else fs_get d k'.
+Proof.
+  induction d as [|kv r IH]; cbn [fs_del filter fs_get]; [now destruct (str_eqb k' k)|].
+  fold (fs_del r k). destruct (str_eqb_spec k (fst kv)) as [E|E]; cbn [negb].
+  - rewrite IH. destruct (str_eqb_spec k' k) as [E2|E2]; [reflexivity|].
+    destruct (str_eqb_spec k' (fst kv)) as [E3|E3]; [congruence|reflexivity].
+  - cbn [fs_get]. rewrite IH. destruct (str_eqb_spec k' (fst kv)) as [E3|E3]; [|reflexivity].
+    destruct (str_eqb_spec k' k) as [E2|E2]; [congruence|reflexivity].
+Qed.
+
+Lemma fs_get_set d k v k' : fs_get (fs_set d k v) k' = if str_eqb k' k then Some v else fs_get d k'.
+Proof.
+  unfold fs_set. cbn [fs_get fst snd]. destruct (str_eqb_spec k' k) as [E|E]; [reflexivity|].
+  rewrite fs_get_del. destruct (str_eqb_spec k' k); [contradiction|reflexivity].
+Qed.
+
+Lemma isfile_set d k v k' : isfile d k' = true -> isfile (fs_set d k v) k' = true.
+Proof. unfold isfile. rewrite fs_get_set. destruct (str_eqb k' k); auto. Qed.
+
+(* one move that is carried out *)
+Lemma move_get d s t c k : s <> t ->
+  fs_get (fs_set (fs_del (fs_del d t) s) t c) k = if str_eqb k t then Some c else if str_eqb k s then None else fs_get d k.
+Proof.
+  intros Hst. rewrite fs_get_set. destruct (str_eqb_spec k t) as [E|E]; [reflexivity|].
+  rewrite !fs_get_del. destruct (str_eqb_spec k s); [reflexivity|]. destruct (str_eqb_spec k t); [contradiction|reflexivity].
+Qed.
+
+Lemma do_moves_untouched : forall mv d d' k, do_moves d mv = Some d' ->
+  (forall s t, In (s, t) mv -> s <> t -> k <> s /\ k <> t) -> fs_get d' k = fs_get d k.
+Proof.
+  induction mv as [|[s t] r IH]; intros d d' k H Hk; cbn [do_moves fst snd] in H; [now injection H as <-|].
+  destruct (str_eqb_spec s t) as [E|E].
+  - apply (IH _ _ _ H). intros s' t' Hin. apply Hk. now right.
+  - destruct (fs_get (fs_del d t) s) as [c|] eqn:Ec; [|discriminate].
+    rewrite (IH _ _ _ H) by (intros s' t' Hin; apply Hk; now right).
+    destruct (Hk s t (or_introl eq_refl) E) as (H1 & H2). rewrite move_get by exact E.
+    destruct (str_eqb_spec k t); [contradiction|]. destruct (str_eqb_spec k s); [contradiction|reflexivity].
+Qed.
+
+Definition closed (mv : dict) : Prop :=
+  forall s t s' t', In (s, t) mv -> In (s', t') mv -> s' = t -> t' = t.
+
+Lemma closed_tail kv mv : closed (kv :: mv) -> closed mv.
+Proof. intros H s t s' t' H1 H2 E. apply (H s t s' t'); [now right|now right|exact E]. Qed.
+
+Lemma do_moves_keeps : forall mv d d' k, do_moves d mv = Some d' -> isfile d k = true ->
+  (forall s t, In (s, t) mv -> s <> t -> s <> k) -> isfile d' k = true.
+Proof.
+  induction mv as [|[s t] r IH]; intros d d' k H Hf Hk; cbn [do_moves fst snd] in H; [now injection H as <-|].
+  destruct (str_eqb_spec s t) as [E|E].
+  - apply (IH _ _ _ H Hf). intros s' t' Hin. apply Hk. now right.
+  - destruct (fs_get (fs_del d t) s) as [c|] eqn:Ec; [|discriminate].
+    apply (IH _ _ _ H); [|intros s' t' Hin; apply Hk; now right].
+    unfold isfile. rewrite move_get by exact E. destruct (str_eqb_spec k t); [reflexivity|].
+    pose proof (Hk s t (or_introl eq_refl) E) as Hs. destruct (str_eqb_spec k s); [congruence|exact Hf].
+Qed.
+
+Lemma do_moves_dests : forall mv d d', NoDup (map fst mv) -> closed mv -> do_moves d mv = Some d' ->
+  (forall s t, In (s, t) mv -> s = t -> isfile d s = true) ->
+  forall s t, In (s, t) mv -> isfile d' t = true.
+Proof.
+  induction mv as [|[s0 t0] r IH]; intros d d' Hnd Hcl H Hself s t Hin; [destruct Hin|].
+  cbn [map fst] in Hnd. inversion Hnd as [|? ? Hs0 Hnd']; subst.
+  assert (Hlater : forall s' t', In (s', t') r -> s' <> t' -> s' <> t0).
+  { intros s' t' Hin' Hne E. apply Hne. rewrite E. symmetry. apply (Hcl s0 t0 s' t'); [now left|now right|exact E]. }
+  cbn [do_moves fst snd] in H. destruct (str_eqb_spec s0 t0) as [E|E].
+  - destruct Hin as [Eq|Hin].
+    + injection Eq as <- <-. apply (do_moves_keeps _ _ _ _ H); [rewrite <- E; apply (Hself s0 t0); [now left|exact E]|exact Hlater].
+    + apply (fun Hs => IH d d' Hnd' (closed_tail _ _ Hcl) H Hs s t Hin). intros s' t' Hin' Ee. apply (Hself s' t'); [now right|exact Ee].
+  - destruct (fs_get (fs_del d t0) s0) as [c|] eqn:Ec; [|discriminate].
+    set (d1 := fs_set (fs_del (fs_del d t0) s0) t0 c) in *.
+    destruct Hin as [Eq|Hin].
+    + injection Eq as <- <-. apply (do_moves_keeps _ _ _ _ H); [|exact Hlater].
+      unfold isfile, d1. rewrite move_get by exact E. now rewrite str_eqb_refl.
+    + apply (fun Hs => IH d1 d' Hnd' (closed_tail _ _ Hcl) H Hs s t Hin). intros s' t' Hin' Ee. subst t'.
+      unfold isfile, d1. rewrite move_get by exact E. destruct (str_eqb_spec s' t0); [reflexivity|].
+      destruct (str_eqb_spec s' s0) as [E2|E2].
+      * exfalso. apply Hs0. subst s'. apply in_map_iff. exists (s0, s0). split; [reflexivity|exact Hin'].
+      * apply (Hself s' s'); [now right|reflexivity].
+Qed.
+
+Lemma do_moves_content : forall mv d d', NoDup (map fst mv) -> NoDup (map snd mv) -> closed mv ->
+  do_moves d mv = Some d' -> forall s t, In (s, t) mv -> fs_get d' t = fs_get d s.
+Proof.
+  induction mv as [|[s0 t0] r IH]; intros d d' Hnf Hns Hcl H s t Hin; [destruct Hin|].
+  cbn [map fst snd] in Hnf, Hns. inversion Hnf as [|? ? Hs0 Hnf']; subst. inversion Hns as [|? ? Ht0 Hns']; subst.
+  assert (Hfree : forall s' t', In (s', t') r -> t0 <> s' /\ t0 <> t').
+  { intros s' t' Hin'. split.
+    - intros E. apply Ht0. apply in_map_iff. exists (s', t'). split; [|exact Hin']. cbn [snd].
+      apply (Hcl s0 t0 s' t'); [now left|now right|now symmetry].
+    - intros E. apply Ht0. apply in_map_iff. exists (s', t'). split; [now symmetry|exact Hin']. }
+  cbn [do_moves fst snd] in H. destruct (str_eqb_spec s0 t0) as [E|E].
+  - destruct Hin as [Eq|Hin].
+    + injection Eq as <- <-. rewrite E. apply (do_moves_untouched _ _ _ _ H). intros s' t' Hin' _. now apply Hfree.
+    + now apply (IH d d' Hnf' Hns' (closed_tail _ _ Hcl) H).
+  - destruct (fs_get (fs_del d t0) s0) as [c|] eqn:Ec; [|discriminate].
+    assert (Hc : fs_get d s0 = Some c).
+    { rewrite fs_get_del in Ec. destruct (str_eqb_spec s0 t0); [contradiction|exact Ec]. }
+    set (d1 := fs_set (fs_del (fs_del d t0) s0) t0 c) in *.
+    destruct Hin as [Eq|Hin].
+    + injection Eq as <- <-. rewrite (do_moves_untouched _ _ _ _ H) by (intros s' t' Hin' _; now apply Hfree).
+      unfold d1. rewrite move_get by exact E. now rewrite str_eqb_refl.
+    + rewrite (IH d1 d' Hnf' Hns' (closed_tail _ _ Hcl) H s t Hin). unfold d1. rewrite move_get by exact E.
+      destruct (Hfree s t Hin) as (H1 & _). destruct (str_eqb_spec s t0); [congruence|].
+      destruct (str_eqb_spec s s0) as [E2|E2]; [|reflexivity].
+      exfalso. apply Hs0. subst s. apply in_map_iff. exists (s0, t). split; [reflexivity|exact Hin].
+Qed.
+
+(* ---- the source dictionary *)
+
+Lemma dict_has_In k l : dict_has k l = true <-> In k (map fst l).
+Proof.
+  unfold dict_has. rewrite existsb_exists. split.
+  - intros (kv & Hin & E). apply str_eqb_eq in E. subst k. now apply in_map.
+  - intros H. apply in_map_iff in H. destruct H as (kv & <- & Hin). exists kv. split; [exact Hin|apply str_eqb_refl].
+Qed.
+
+Lemma dict_set_keys k v l : map fst (dict_set k v l) = if dict_has k l then map fst l else map fst l ++ [k].
+Proof.
+  induction l as [|kv r IH]; [reflexivity|]. cbn [dict_set]. unfold dict_has in *. cbn [existsb].
+  destruct (str_eqb k (fst kv)); cbn [orb map fst]; [reflexivity|]. rewrite IH.
+  destruct (existsb (fun kv0 => str_eqb k (fst kv0)) r); reflexivity.
+Qed.
+
+Lemma dict_set_In k v l k' v' : In (k', v') (dict_set k v l) -> (k' = k /\ v' = v) \/ In (k', v') l.
+Proof.
+  induction l as [|kv r IH]; cbn [dict_set].
+  - intros [E|[]]. injection E as <- <-. now left.
+  - destruct (str_eqb_spec k (fst kv)) as [E|E]; intros [H|H].
+    + injection H as <- <-. now left.
+    + right. now right.
+    + right. now left.
+    + destruct (IH H) as [?|?]; [now left|right; now right].
+Qed.
+
+Lemma dict_set_nodup k v l : NoDup (map fst l) -> NoDup (map fst (dict_set k v l)).
+Proof.
+  intros H. rewrite dict_set_keys. destruct (dict_has k l) eqn:E; [exact H|].
+  apply NoDup_app_intro_single; [exact H|]. intros Hin. apply dict_has_In in Hin. congruence.
+Qed.
+
+Lemma dict_set_keeps_keys k v l k' : In k' (map fst l) -> In k' (map fst (dict_set k v l)).
+Proof. intros H. rewrite dict_set_keys. destruct (dict_has k l); [exact H|]. apply in_or_app. now left. Qed.
+
+Definition dst_ok (target : str) (l : dict) : Prop := forall s t, In (s, t) l -> t = dst target s.
+
+Lemma gen_names_spec target p : forall acc, NoDup (map fst acc) -> dst_ok target acc ->
+  let r := fold_left (fun src fr => if dict_has (f_file fr) src then src else dict_set (f_file fr) (dst target (f_file fr)) src) p acc in
+  NoDup (map fst r) /\ dst_ok target r /\ (forall k, In k (map fst acc) -> In k (map fst r)) /\
+  (forall fr, In fr p -> In (f_file fr) (map fst r)).
+Proof.
+  induction p as [|fr p IH]; intros acc Hnd Hok; cbn [fold_left].
+  - repeat split; auto. intros fr [].
+  - destruct (dict_has (f_file fr) acc) eqn:Eh.
+    + destruct (IH acc Hnd Hok) as (H1 & H2 & H3 & H4). repeat split; auto.
+      intros fr' [<-|Hin]; [apply H3; now apply dict_has_In|now apply H4].
+    + set (acc' := dict_set (f_file fr) (dst target (f_file fr)) acc).
+      assert (Hnd' : NoDup (map fst acc')) by now apply dict_set_nodup.
+      assert (Hok' : dst_ok target acc').
+      { intros s t Hin. apply dict_set_In in Hin. destruct Hin as [(-> & ->)|Hin]; [reflexivity|now apply Hok]. }
+      destruct (IH acc' Hnd' Hok') as (H1 & H2 & H3 & H4). repeat split; auto.
+      * intros k Hk. apply H3. now apply dict_set_keeps_keys.
+      * intros fr' [<-|Hin]; [|now apply H4]. apply H3. unfold acc'. rewrite dict_set_keys, Eh. apply in_or_app. right. now left.
+Qed.
+
+Lemma keep_one_spec d target keep s : Forall no_slash keep -> forall acc,
+  NoDup (map fst acc) -> dst_ok target acc ->
+  let r := keep_one d target keep acc s in
+  NoDup (map fst r) /\ dst_ok target r /\ (forall k, In k (map fst acc) -> In k (map fst r)).
+Proof.
+  intros Hk. unfold keep_one. induction Hk as [|ext keep Hext Hk IH]; intros acc Hnd Hok; cbn [fold_left]; [auto|].
+  set (nf := stem (basename s) ++ ext). destruct (isfile d (pjoin (dirname s) nf)); [|now apply IH].
+  set (acc' := dict_set (pjoin (dirname s) nf) (pjoin target nf) acc).
+  assert (Hnf : no_slash nf).
+  { unfold no_slash, nf. rewrite has_slash_app. rewrite (stem_noslash _ (basename_noslash s)). exact Hext. }
+  assert (Hnd' : NoDup (map fst acc')) by now apply dict_set_nodup.
+  assert (Hok' : dst_ok target acc').
+  { intros s' t' Hin. apply dict_set_In in Hin. destruct Hin as [(-> & ->)|Hin]; [|now apply Hok].
+    unfold dst. now rewrite basename_pjoin. }
+  destruct (IH acc' Hnd' Hok') as (H1 & H2 & H3). repeat split; auto.
+  intros k Hin. apply H3. now apply dict_set_keeps_keys.
+Qed.
+
+Lemma keep_extras_spec d target keep : Forall no_slash keep -> forall ss acc,
+  NoDup (map fst acc) -> dst_ok target acc ->
+  let r := fold_left (keep_one d target keep) ss acc in
+  NoDup (map fst r) /\ dst_ok target r /\ (forall k, In k (map fst acc) -> In k (map fst r)).
+Proof.
+  intros Hk. induction ss as [|s ss IH]; intros acc Hnd Hok; cbn [fold_left]; [auto|].
+  destruct (keep_one_spec d target keep s Hk acc Hnd Hok) as (H1 & H2 & H3).
+  destruct (IH _ H1 H2) as (H4 & H5 & H6). repeat split; auto.
+Qed.
+
+Lemma move_list_spec d target keep p : Forall no_slash keep ->
+  let mv := move_list d target keep p in
+  NoDup (map fst mv) /\ dst_ok target mv /\ closed mv /\
+  (forall fr, In fr p -> In (f_file fr, dst target (f_file fr)) mv).
+Proof.
+  intros Hk. unfold move_list, keep_extras. set (g := gen_names target p).
+  assert (G : NoDup (map fst g) /\ dst_ok target g /\ (forall k, In k (map fst (@nil (str * str))) -> In k (map fst g)) /\
+              (forall fr, In fr p -> In (f_file fr) (map fst g))).
+  { exact (gen_names_spec target p [] (NoDup_nil _) (fun s t H => match H with end)). }
+  destruct G as (G1 & G2 & _ & G4).
+  destruct (keep_extras_spec d target keep Hk (map fst g) g G1 G2) as (H1 & H2 & H3).
+  set (mv := fold_left (keep_one d target keep) (map fst g) g) in *. repeat split; auto.
+  - intros s t s' t' Hin Hin' E. rewrite (H2 _ _ Hin'), E, (H2 _ _ Hin). apply dst_idem.
+  - intros fr Hin. pose proof (H3 _ (G4 fr Hin)) as Hkey. apply in_map_iff in Hkey. destruct Hkey as ([s t] & E & Hin2).
+    cbn [fst] in E. subst s. now rewrite <- (H2 _ _ Hin2).
+Qed.
+
+Lemma move_list_nokeep d target p : move_list d target [] p = gen_names target p.
+Proof.
+  unfold move_list, keep_extras. generalize (map fst (gen_names target p)). intros ss.
+  generalize (gen_names target p). induction ss as [|s ss IH]; intros g; [reflexivity|]. cbn [fold_left]. unfold keep_one at 2. cbn [fold_left]. apply IH.
+Qed.
+
+(* ================================================================== store, then load *)
+
+Definition txt_files (arch : str) : list str := [pjoin arch order_txt; pjoin arch energy_txt; pjoin arch traj_txt].
+
+(* no file that is moved is one of the three text files just written *)
+Definition txt_untouched (mv : dict) (arch : str) : Prop :=
+  forall s t, In (s, t) mv -> ~ In s (txt_files arch).
+
+Lemma pjoin_prefix a : exists P, forall y, pjoin a y = P ++ y.
+Proof.
+  unfold pjoin. destruct (is_nil a); [exists []; reflexivity|]. destruct (ends_slash a).
+  - exists a. reflexivity.
+  - exists (a ++ [c_slash]). intros y. now rewrite <- app_assoc.
+Qed.
+
+(* a file in <arch>/accepted/ is none of <arch>/order.txt, energy.txt, traj.txt *)
+Lemma accepted_not_txt arch b : ~ In (pjoin (accepted_dir arch) b) (txt_files arch).
+Proof.
+  destruct (pjoin_prefix arch) as (P & HP). unfold accepted_dir, txt_files. rewrite !HP.
+  assert (E : pjoin (P ++ acc_dir) b = P ++ acc_dir ++ c_slash :: b).
+  { unfold pjoin. assert (H1 : is_nil (P ++ acc_dir) = false) by (destruct P; reflexivity).
+    assert (H2 : ends_slash (P ++ acc_dir) = false) by (unfold ends_slash; rewrite rev_app_distr; reflexivity).
+    rewrite H1, H2. now rewrite <- app_assoc. }
+  rewrite E. cbn [In]. intros [H|[H|[H|[]]]]; apply app_inv_head in H; vm_compute in H; discriminate.
+Qed.
+
+Lemma write_txt_get d arch step move p :
+  fs_get (write_txt d arch step move p) (pjoin arch order_txt) = Some (render (order_file step move p)) /\
+  fs_get (write_txt d arch step move p) (pjoin arch energy_txt) = Some (render (energy_file step move p)) /\
+  fs_get (write_txt d arch step move p) (pjoin arch traj_txt) = Some (render (traj_file step p)).
+Proof.
+  destruct txt_names_differ as (H1 & H2 & H3). unfold write_txt. rewrite !fs_get_set. repeat split.
+  - destruct (str_eqb_spec (pjoin arch order_txt) (pjoin arch traj_txt)) as [E|_]; [apply pjoin_inj in E; contradiction|].
+    destruct (str_eqb_spec (pjoin arch order_txt) (pjoin arch energy_txt)) as [E|_]; [apply pjoin_inj in E; contradiction|].
+    now rewrite str_eqb_refl.
+  - destruct (str_eqb_spec (pjoin arch energy_txt) (pjoin arch traj_txt)) as [E|_]; [apply pjoin_inj in E; contradiction|].
+    now rewrite str_eqb_refl.
+  - now rewrite str_eqb_refl.
+Qed.
+
+Lemma write_txt_isfile d arch step move p k : isfile d k = true -> isfile (write_txt d arch step move p) k = true.
+Proof. intros H. unfold write_txt. now repeat apply isfile_set. Qed.
+
+Definition traj_ref (pdir : str) (fr : frame) : str * Z * bool := (dst (accepted_dir pdir) (f_file fr), idx_written fr, f_rev fr).
+
+Lemma traj_row_cells pdir i fr : traj_row pdir (traj_cells i fr) = Some (traj_ref pdir fr).
+Proof.
+  unfold traj_cells, traj_row. rewrite !parse_int_str. unfold traj_ref, dst. do 2 f_equal.
+  destruct (f_rev fr); [apply Z.eqb_refl|apply traj_vals_differ].
+Qed.
+
+Lemma traj_rows_seq pdir p : forall i0,
+  sequence (map (traj_row pdir) (map (fun x => traj_cells (fst x) (snd x)) (enum_from i0 p))) = Some (map (traj_ref pdir) p).
+Proof.
+  induction p as [|fr r IH]; intros i0; [reflexivity|]. cbn [enum_from map fst snd sequence].
+  rewrite traj_row_cells, IH. reflexivity.
+Qed.
+
+Lemma enum_from_nonnil {A} (l : list A) i : l <> [] -> enum_from i l <> [].
+Proof. destruct l; [congruence|discriminate]. Qed.
+
+Lemma energy_column_spec k (sel : frame -> fval) p : p <> [] -> (k < energy_nterms)%nat ->
+  (forall fr, nth k (energy_vals fr) None = sel fr) ->
+  forall i0, energy_column k (map (fun x => num_row energy_d energy_vals (fst x) (snd x)) (enum_from i0 p))
+             = Some (map (fun fr => rnd energy_d (sel fr)) p).
+Proof.
+  intros Hne Hk Hsel i0. unfold energy_column.
+  assert (Hlen : (S k <? length (hd [] (map (fun x => num_row energy_d energy_vals (fst x) (snd x)) (enum_from i0 p))))%nat = true).
+  { destruct p as [|fr r]; [congruence|]. cbn [enum_from map hd fst snd]. unfold num_row. cbn [length].
+    rewrite map_length. destruct (energy_vals_spec fr) as (-> & _). apply Nat.ltb_lt. lia. }
+  rewrite Hlen. f_equal. clear Hlen Hne. revert i0. induction p as [|fr r IH]; intros i0; [reflexivity|].
+  cbn [enum_from map fst snd]. rewrite IH. f_equal. unfold num_row. cbn [nth].
+  change (@None Q) with (rnd energy_d None). rewrite map_nth. now rewrite Hsel.
+Qed.
+
+Lemma build_frames_spec pdir vp ek : forall p i0 pre, length pre = i0 ->
+  vp = map (fun fr => rnd energy_d (f_vpot fr)) (pre ++ p) -> ek = map (fun fr => rnd energy_d (f_ekin fr)) (pre ++ p) ->
+  build_frames i0 (map (traj_ref pdir) p) (map (fun x => num_row order_d f_orders (fst x) (snd x)) (enum_from i0 p)) (Some (vp, ek))
+  = map (reload pdir) p.
+Proof.
+  induction p as [|fr r IH]; intros i0 pre Hl Hvp Hek; [reflexivity|].
+  cbn [enum_from map build_frames fst snd]. f_equal.
+  - unfold reload, energy_at, traj_ref. cbn [fst snd]. unfold num_row. cbn [skipn].
+    rewrite Hvp, Hek, !map_app. cbn [map]. rewrite !nth_error_app2 by (rewrite map_length; lia).
+    rewrite !map_length, Hl, Nat.sub_diag. reflexivity.
+  - apply (IH (S i0) (pre ++ [fr])); [rewrite app_length; cbn; lia| |]; now rewrite <- app_assoc.
+Qed.
+
+Section RoundTrip.
+  Variables (d : fsmap) (step : Z) (move home : str) (pn : Z) (keep : list str) (p : list frame).
+  Let arch := archive_dir home pn.
+  Let tdir := accepted_dir arch.
+  Let d3 := write_txt d arch step move p.
+  Let mv := move_list d3 tdir keep p.
+
+  Variable ncol : nat.
+  Hypothesis Hne : p <> [].
+  Hypothesis Hmove : nonl move.
+  Hypothesis Hnames : Forall name_ok p.
+  Hypothesis Hcols : Forall (fun fr => length (f_orders fr) = ncol) p.
+  Hypothesis Hkeep : Forall no_slash keep.
+  Hypothesis Hexist : Forall (fun fr => isfile d (f_file fr) = true) p.
+  Hypothesis Htxt : txt_untouched mv arch.
+
+  Variables (d' : fsmap) (cfg : list (str * option Z)).
+  Hypothesis Hstore : store d step move home pn keep p = Some (d', cfg).
+
+  Lemma store_moves : do_moves d3 mv = Some d' /\ cfg = map (fun fr => (dst tdir (f_file fr), f_idx fr)) p.
+  Proof.
+    unfold store in Hstore. fold arch tdir d3 mv in Hstore. destruct (do_moves d3 mv) as [d4|]; [|discriminate].
+    injection Hstore as <- <-. split; reflexivity.
+  Qed.
+
+  Lemma txt_survive k : In k (txt_files arch) -> fs_get d' k = fs_get d3 k.
+  Proof.
+    intros Hk. destruct store_moves as (Hm & _). apply (do_moves_untouched _ _ _ _ Hm).
+    destruct (move_list_spec d3 tdir keep p Hkeep) as (_ & M2 & _ & _). fold mv in M2.
+    intros s t Hin Hst. split; intros ->; [exact (Htxt _ _ Hin Hk)|].
+    rewrite (M2 _ _ Hin) in Hk. unfold dst, tdir in Hk. exact (accepted_not_txt arch _ Hk).
+  Qed.
+
+  Lemma dests_exist fr : In fr p -> isfile d' (dst tdir (f_file fr)) = true.
+  Proof.
+    intros Hin. destruct store_moves as (Hm & _).
+    destruct (move_list_spec d3 tdir keep p Hkeep) as (M1 & M2 & M3 & M4). fold mv in M1, M2, M3, M4.
+    apply (do_moves_dests mv d3 d' M1 M3 Hm) with (s := f_file fr); [|now apply M4].
+    intros s t Hin' E. subst t.
+    (* a file moved onto itself: it is a source of the path or an existing kept file; it exists *)
+    destruct (in_dec (list_eq_dec Z.eq_dec) s (map f_file p)) as [Hs|Hs].
+    - apply in_map_iff in Hs. destruct Hs as (fr' & <- & Hfr'). apply write_txt_isfile. rewrite Forall_forall in Hexist. now apply Hexist.
+    - (* not a source of the path: it was entered by keep_one, after an isfile test *)
+      revert Hin'. unfold mv, move_list, keep_extras.
+      assert (G : forall k v, In (k, v) (gen_names tdir p) -> In k (map f_file p)).
+      { unfold gen_names. intros k v. set (f := fun src fr0 => _).
+        assert (Gen : forall q acc, (forall k v, In (k, v) acc -> In k (map f_file p)) -> (forall fr0, In fr0 q -> In fr0 p) ->
+                                    forall k v, In (k, v) (fold_left f q acc) -> In k (map f_file p)).
+        { induction q as [|fr0 q IHq]; intros acc Hacc Hq k0 v0; cbn [fold_left]; [apply Hacc|].
+          apply IHq; [|intros fr1 H1; apply Hq; now right]. unfold f. intros k1 v1 H1.
+          destruct (dict_has (f_file fr0) acc); [now apply (Hacc k1 v1)|].
+          apply dict_set_In in H1. destruct H1 as [(-> & _)|H1]; [apply in_map, Hq; now left|now apply (Hacc k1 v1)]. }
+        apply (Gen p []); [intros ? ? []|auto]. }
+      generalize (map fst (gen_names tdir p)). intros ss. revert G. generalize (gen_names tdir p). intros g0 G.
+      assert (Gen2 : forall ss g, (forall k v, In (k, v) g -> In k (map f_file p) \/ isfile d3 k = true) ->
+                                 forall k v, In (k, v) (fold_left (keep_one d3 tdir keep) ss g) -> In k (map f_file p) \/ isfile d3 k = true).
+      { induction ss0 as [|s0 ss0 IHs]; intros g Hg k0 v0; cbn [fold_left]; [apply Hg|].
+        apply IHs. unfold keep_one. generalize keep. intros kp. revert g Hg. induction kp as [|ext kp IHk]; intros g Hg; cbn [fold_left]; [exact Hg|].
+        apply IHk. destruct (isfile d3 (pjoin (dirname s0) (stem (basename s0) ++ ext))) eqn:Ef; [|exact Hg].
+        intros k1 v1 H1. apply dict_set_In in H1. destruct H1 as [(-> & _)|H1]; [now right|now apply (Hg k1 v1)]. }
+      intros Hin'. destruct (Gen2 ss g0 (fun k v H => or_introl (G k v H)) s s Hin') as [H|H]; [contradiction|exact H].
+  Qed.
+
+  Theorem store_load_roundtrip : load d' arch = Some (map (reload arch) p).
+  Proof.
+    destruct (write_txt_get d arch step move p) as (Go & Ge & Gt). fold d3 in Go, Ge, Gt.
+    unfold load.
+    rewrite (txt_survive (pjoin arch traj_txt)), Gt by (cbn; auto).
+    rewrite (txt_survive (pjoin arch order_txt)), Go by (cbn; auto).
+    rewrite (read_traj_file step p Hnames), traj_rows_seq.
+    assert (Hfiles : forallb (fun x => isfile d' (fst (fst x))) (map (traj_ref arch) p) = true).
+    { apply forallb_forall. intros x Hx. apply in_map_iff in Hx. destruct Hx as (fr & <- & Hfr). cbn [traj_ref fst]. now apply dests_exist. }
+    rewrite Hfiles. cbn [negb].
+    rewrite (read_order_file step move ncol p Hmove Hcols).
+    assert (Hnn : is_nil (map (fun x => num_row order_d f_orders (fst x) (snd x)) (enum_from 0 p)) = false).
+    { destruct p; [congruence|reflexivity]. }
+    rewrite Hnn. unfold load_energies.
+    rewrite (txt_survive (pjoin arch energy_txt)), Ge by (cbn; auto).
+    rewrite (read_energy_file step move p Hmove).
+    assert (Hne2 : is_nil (map (fun x => num_row energy_d energy_vals (fst x) (snd x)) (enum_from 0 p)) = false).
+    { destruct p; [congruence|reflexivity]. }
+    rewrite Hne2. destruct energy_cols_ok as (Kv & Ke).
+    rewrite (energy_column_spec energy_ekin_col f_ekin p Hne Ke (fun fr => proj2 (proj2 (energy_vals_spec fr)))).
+    rewrite (energy_column_spec energy_vpot_col f_vpot p Hne Kv (fun fr => proj1 (proj2 (energy_vals_spec fr)))).
+    f_equal. now apply (build_frames_spec arch _ _ p 0%nat []).
+  Qed.
+
+  (* every file the loaded path refers to is a destination of the move into the path's own directory, and exists *)
+  Theorem stored_files_exist : forall lf, In lf (map (reload arch) p) ->
+    exists s, In (s, l_file lf) mv /\ l_file lf = pjoin (accepted_dir arch) (basename s) /\ isfile d' (l_file lf) = true.
+  Proof.
+    intros lf Hin. apply in_map_iff in Hin. destruct Hin as (fr & <- & Hfr). cbn [reload l_file].
+    destruct (move_list_spec d3 tdir keep p Hkeep) as (_ & _ & _ & M4). fold mv in M4.
+    exists (f_file fr). split; [now apply M4|]. split; [reflexivity|now apply dests_exist].
+  Qed.
+
+  (* content: with distinct destinations every referenced file holds what its source held *)
+  Theorem stored_content : NoDup (map snd mv) -> forall fr, In fr p ->
+    fs_get d' (dst tdir (f_file fr)) = fs_get d (f_file fr).
+  Proof.
+    intros Hnd fr Hfr. destruct store_moves as (Hm & _).
+    destruct (move_list_spec d3 tdir keep p Hkeep) as (M1 & M2 & M3 & M4). fold mv in M1, M2, M3, M4.
+    rewrite (do_moves_content mv d3 d' M1 Hnd M3 Hm _ _ (M4 fr Hfr)).
+    (* the source was not overwritten by the text files *)
+    unfold d3, write_txt. rewrite !fs_get_set.
+    pose proof (Htxt _ _ (M4 fr Hfr)) as Hs.
+    cbn [txt_files In] in Hs.
+    destruct (str_eqb_spec (f_file fr) (pjoin arch traj_txt)); [exfalso; apply Hs; auto|].
+    destruct (str_eqb_spec (f_file fr) (pjoin arch energy_txt)); [exfalso; apply Hs; auto|].
+    destruct (str_eqb_spec (f_file fr) (pjoin arch order_txt)); [exfalso; apply Hs; auto|]. reflexivity.
+  Qed.
+End RoundTrip.
+
+(* ---- without keep_traj_fnames: the explicit hypothesis "distinct source files have distinct base names" *)
+
+Definition distinct_basenames (p : list frame) : Prop :=
+  forall f1 f2, In f1 p -> In f2 p -> basename (f_file f1) = basename (f_file f2) -> f_file f1 = f_file f2.
+
+Lemma gen_names_keys target p : forall k v, In (k, v) (gen_names target p) -> In k (map f_file p).
+Proof.
+  unfold gen_names. set (f := fun src fr0 => _).
+  assert (Gen : forall q acc, (forall k v, In (k, v) acc -> In k (map f_file p)) -> (forall fr0, In fr0 q -> In fr0 p) ->
+                              forall k v, In (k, v) (fold_left f q acc) -> In k (map f_file p)).
+  { induction q as [|fr0 q IHq]; intros acc Hacc Hq k0 v0; cbn [fold_left]; [apply Hacc|].
+    apply IHq; [|intros fr1 H1; apply Hq; now right]. unfold f. intros k1 v1 H1.
+    destruct (dict_has (f_file fr0) acc); [now apply (Hacc k1 v1)|].
+    apply dict_set_In in H1. destruct H1 as [(-> & _)|H1]; [apply in_map, Hq; now left|now apply (Hacc k1 v1)]. }
+  apply (Gen p []); [intros ? ? []|auto].
+Qed.
+
+Lemma NoDup_map_inj_on {A B} (f : A -> B) l : NoDup l -> (forall x y, In x l -> In y l -> f x = f y -> x = y) -> NoDup (map f l).
+Proof.
+  induction 1 as [|a l Ha Hl IH]; intros Hinj; cbn [map]; constructor.
+  - intros Hin. apply in_map_iff in Hin. destruct Hin as (y & E & Hy). apply Ha.
+    rewrite (Hinj a y); [exact Hy|now left|now right|now symmetry].
+  - apply IH. intros x y Hx Hy. apply Hinj; now right.
+Qed.
+
+Lemma distinct_dests d target p : distinct_basenames p -> NoDup (map snd (move_list d target [] p)).
+Proof.
+  intros Hd. rewrite move_list_nokeep.
+  destruct (move_list_spec d target [] p (Forall_nil _)) as (M1 & M2 & _ & _). rewrite move_list_nokeep in M1, M2.
+  set (g := gen_names target p) in *.
+  assert (E : map snd g = map (dst target) (map fst g)).
+  { rewrite map_map. apply map_ext_in. intros [s t] Hin. cbn [fst snd]. now apply M2. }
+  rewrite E. apply NoDup_map_inj_on; [exact M1|].
+  intros x y Hx Hy Exy. apply in_map_iff in Hx, Hy. destruct Hx as ([x' vx] & <- & Hx). destruct Hy as ([y' vy] & <- & Hy). cbn [fst] in *.
+  apply gen_names_keys in Hx, Hy. apply in_map_iff in Hx, Hy. destruct Hx as (f1 & <- & H1). destruct Hy as (f2 & <- & H2).
+  apply Hd; [exact H1|exact H2|]. unfold dst in Exy. now apply pjoin_inj in Exy.
+Qed.
+
+Lemma txt_untouched_nokeep d arch target p :
+  (forall fr, In fr p -> ~ In (f_file fr) (txt_files arch)) -> txt_untouched (move_list d target [] p) arch.
+Proof.
+  intros H s t Hin. rewrite move_list_nokeep in Hin. apply gen_names_keys in Hin. apply in_map_iff in Hin.
+  destruct Hin as (fr & <- & Hfr). now apply H.
+Qed.
+
+(* ================================================================== Part B: the deletion machine *)
+
+Lemma dir_get_del ds pn pn' : dir_get (dir_del ds pn) pn' = if pn' =? pn then None else dir_get ds pn'.
+Proof.
+  unfold dir_get, dir_del. induction ds as [|[a i] r IH]; cbn [filter find fst]; [now destruct (pn' =? pn)|].
+  destruct (Z.eqb_spec a pn) as [E|E]; cbn [negb].
+  - rewrite IH. destruct (Z.eqb_spec pn' pn) as [E2|E2]; [reflexivity|].
+    destruct (Z.eqb_spec a pn'); [congruence|reflexivity].
+  - cbn [find fst]. destruct (Z.eqb_spec a pn') as [E2|E2]; [|exact IH].
+    destruct (Z.eqb_spec pn' pn); [congruence|reflexivity].
+Qed.
+
+Lemma find_app {A} (f : A -> bool) l m : find f (l ++ m) = match find f l with Some x => Some x | None => find f m end.
+Proof. induction l as [|a l IH]; [reflexivity|]. cbn [app find]. destruct (f a); [reflexivity|exact IH]. Qed.
+
+Lemma dir_get_set ds pn i pn' : dir_get (dir_set ds pn i) pn' = if pn' =? pn then Some i else dir_get ds pn'.
+Proof.
+  unfold dir_set. pose proof (dir_get_del ds pn pn') as H. unfold dir_get in *. rewrite find_app.
+  destruct (Z.eqb_spec pn' pn) as [E|E].
+  - destruct (find (fun x => fst x =? pn') (dir_del ds pn)); [discriminate|]. cbn [find fst]. subst. now rewrite Z.eqb_refl.
+  - destruct (find (fun x => fst x =? pn') (dir_del ds pn)) as [x|]; [exact H|]. cbn [find fst].
+    destruct (Z.eqb_spec pn pn'); [congruence|exact H].
+Qed.
+
+Lemma dir_del_keys ds pn p : In p (map fst (dir_del ds pn)) -> In p (map fst ds).
+Proof. unfold dir_del. intros H. apply in_map_iff in H. destruct H as (x & <- & Hx). apply filter_In in Hx. apply in_map, Hx. Qed.
+
+Lemma dir_set_keys ds pn i p : In p (map fst (dir_set ds pn i)) -> p = pn \/ In p (map fst ds).
+Proof.
+  unfold dir_set. rewrite map_app. intros H. apply in_app_or in H. destruct H as [H|[H|[]]]; [right; now apply dir_del_keys in H|now left].
+Qed.
+
+Section DelP.
+  Variables (delete_old delete_all : bool) (n : Z).
+  Variable kmax : nat.                         (* ensembles treated by one treat_output call *)
+  Hypothesis Hkmax : Z.of_nat kmax <= n - lag_off + 1.
+
+  Notation item_step := (item_step delete_old delete_all n).
+  Notation mstep := (mstep delete_old delete_all n).
+  Notation mrun := (mrun delete_old delete_all n).
+  Notation delete_path := (delete_path delete_all).
+
+  Definition complete (ds : list (Z * dinfo)) (pn : Z) : Prop :=
+    exists i, dir_get ds pn = Some i /\ d_txt i = true /\ d_traj i = true.
+
+  Lemma delete_path_other ds pd pn : pn <> pd -> dir_get (fst (delete_path ds pd)) pn = dir_get ds pn.
+  Proof.
+    intros H. unfold delete_path. destruct (dir_get ds pd) as [i|]; [|reflexivity].
+    destruct delete_all; [destruct (0 <? d_nextra i)%nat|]; cbn [fst]; rewrite ?dir_get_set, ?dir_get_del;
+      (destruct (Z.eqb_spec pn pd); [contradiction|reflexivity]).
+  Qed.
+
+  Lemma delete_path_keys ds pd p : In p (map fst (fst (delete_path ds pd))) -> In p (map fst ds).
+  Proof.
+    unfold delete_path. destruct (dir_get ds pd) as [i|] eqn:E; [|auto].
+    assert (Hpd : In pd (map fst ds)).
+    { unfold dir_get in E. destruct (find (fun x => fst x =? pd) ds) as [x|] eqn:Ef; [|discriminate].
+      apply find_some in Ef. destruct Ef as (Hin & Hx). apply Z.eqb_eq in Hx. subst pd. now apply in_map. }
+    destruct delete_all; [destruct (0 <? d_nextra i)%nat|]; cbn [fst]; intros H;
+      try (apply dir_set_keys in H; destruct H as [->|H]; assumption); now apply dir_del_keys in H.
+  Qed.
+
+  Lemma complete_other ds pd pn : pn <> pd -> complete ds pn -> complete (fst (delete_path ds pd)) pn.
+  Proof. intros H (i & E & Hi). exists i. split; [now rewrite delete_path_other|exact Hi]. Qed.
+
+  Lemma complete_set_other ds pn i p : p <> pn -> complete ds p -> complete (dir_set ds pn i) p.
+  Proof. intros H (j & E & Hj). exists j. rewrite dir_get_set. destruct (Z.eqb_spec p pn); [contradiction|now split]. Qed.
+
+  Lemma complete_set_new ds pn a b : complete (dir_set ds pn (mkI true true a b)) pn.
+  Proof. eexists. rewrite dir_get_set, Z.eqb_refl. repeat split. Qed.
+
+  (* ---- the branches of one item *)
+  Definition ds1_of (st : dstate) a b := dir_set (dirs st) (next st) (mkI true true a b).
+
+  Inductive item_case (st : dstate) (old : Z) (a b : nat) : dstate * list event -> Prop :=
+  | IC_plain q2 :
+      (q2 = queue st \/ (q2 = qpush old (queue st) /\ n - guard_off < old /\ Z.of_nat (length (queue st)) <= n - lag_off)) ->
+      item_case st old a b
+        (mkD (replace_z old (next st) (live st)) q2 (next st + 1) (ds1_of st a b) (rec_ st) (S (cnt st)) false, [ERepl old (next st)])
+  | IC_stop :
+      queue st = [] -> n - lag_off < 0 ->
+      item_case st old a b (mkD (live st) [] (next st) (ds1_of st a b) (rec_ st) (S (cnt st)) true, [ERepl old (next st); ECrash])
+  | IC_rmdir pd q' :
+      queue st = pd :: q' -> n - lag_off < Z.of_nat (length (queue st)) -> n - guard_off < old ->
+      item_case st old a b
+        (mkD (live st) (queue st) (next st) (fst (delete_path (ds1_of st a b) pd)) (rec_ st) (S (cnt st)) true,
+         [ERepl old (next st); EDel pd; ECrash])
+  | IC_delete pd q' q2 :
+      queue st = pd :: q' -> n - lag_off < Z.of_nat (length (queue st)) -> n - guard_off < old ->
+      (q2 = q' \/ q2 = qpush old q') ->
+      item_case st old a b
+        (mkD (replace_z old (next st) (live st)) q2 (next st + 1) (fst (delete_path (ds1_of st a b) pd)) (rec_ st) (S (cnt st)) false,
+         [ERepl old (next st); EDel pd]).
+
+  Lemma item_step_case st old a b : item_case st old a b (item_step st old a b).
+  Proof.
+    unfold item_step. fold (ds1_of st a b).
+    destruct (delete_old && (old >? n - guard_off)) eqn:Eq.
+    - apply andb_true_iff in Eq. destruct Eq as (_ & Eg). apply Z.gtb_lt in Eg.
+      destruct (Z.of_nat (length (queue st)) >? n - lag_off) eqn:Ef.
+      + apply Z.gtb_lt in Ef. destruct (queue st) as [|pd q'] eqn:Equ.
+        * apply IC_stop; [exact Equ|]. cbn [length] in Ef. lia.
+        * destruct (delete_path (ds1_of st a b) pd) as [ds2 failed] eqn:Ed.
+          replace ds2 with (fst (delete_path (ds1_of st a b) pd)) by now rewrite Ed.
+          destruct failed.
+          -- rewrite <- Equ. apply (IC_rmdir st old a b pd q'); [exact Equ|rewrite Equ; exact Ef|exact Eg].
+          -- apply (IC_delete st old a b pd q'); [exact Equ|rewrite Equ; exact Ef|exact Eg|].
+             destruct (Z.of_nat (length q') <=? n - push_off); [now right|now left].
+      + apply IC_plain. assert (Hf : Z.of_nat (length (queue st)) <= n - lag_off).
+        { destruct (Z.gtb_spec (Z.of_nat (length (queue st))) (n - lag_off)); [discriminate|lia]. }
+        destruct (Z.of_nat (length (queue st)) <=? n - push_off); [right; repeat split; assumption|now left].
+    - apply IC_plain. now left.
+  Qed.
+
+  (* ---- the invariant of a run that has not crashed *)
+  Record wf (st : dstate) : Prop := mkWf {
+    wf_alive : dead st = false;
+    wf_live_lt : forall p, In p (live st) -> p < next st;
+    wf_queue_lt : forall p, In p (queue st) -> p < next st;
+    wf_dirs_lt : forall p, In p (map fst (dirs st)) -> p < next st;
+    wf_rec_lt : forall p, In p (rec_ st) -> p < next st;
+    wf_queue_not_live : forall p, In p (queue st) -> ~ In p (live st);
+    wf_queue_guard : forall p, In p (queue st) -> n - guard_off < p;
+    wf_live_complete : forall p, In p (live st) -> complete (dirs st) p;
+    wf_rec_complete : forall p, In p (rec_ st) -> complete (dirs st) p;
+    wf_rec_recent : forall k p, nth_error (queue st) k = Some p -> In p (rec_ st) -> (length (queue st) - k <= cnt st)%nat;
+    wf_cnt0 : cnt st = 0%nat -> rec_ st = live st }.
+
+  Definition valid (st : dstate) (o : mop) : Prop :=
+    dead st = true \/
+    match o with
+    | MItem old _ _ => In old (live st) /\ (cnt st < kmax)%nat
+    | MEnd => True
+    | MRestart => cnt st = 0%nat
+    end.
+
+  Lemma replace_In old new l p : In p (replace_z old new l) -> p = new \/ (In p l /\ p <> old).
+  Proof.
+    unfold replace_z. intros H. apply in_map_iff in H. destruct H as (x & E & Hx).
+    destruct (Z.eqb_spec x old); [now left|right; subst; now split].
+  Qed.
+
+  Lemma qpush_In k q p : In p (qpush k q) -> p = k \/ In p q.
+  Proof. unfold qpush. destruct (zmem k q); [now right|]. intros H. apply in_app_or in H. destruct H as [H|[H|[]]]; auto. Qed.
+
+  Lemma qpush_nth k q i p : nth_error (qpush k q) i = Some p -> nth_error q i = Some p \/ (i = length q /\ p = k /\ qpush k q = q ++ [k]).
+  Proof.
+    unfold qpush. destruct (zmem k q); [now left|]. intros H.
+    destruct (Nat.lt_ge_cases i (length q)) as [Hl|Hl]; [left; now rewrite nth_error_app1 in H|].
+    rewrite nth_error_app2 in H by exact Hl. destruct (i - length q)%nat as [|j] eqn:Ej; [|destruct j; discriminate].
+    cbn in H. injection H as <-. right. repeat split. lia.
+  Qed.
+
+  Lemma qpush_length k q : (length (qpush k q) <= S (length q))%nat /\ (length q <= length (qpush k q))%nat.
+  Proof. unfold qpush. destruct (zmem k q); [lia|]. rewrite app_length. cbn. lia. Qed.
+
+  (* the head of a full queue is not in the restart record on disk *)
+  Lemma head_not_in_rec st pd q' : wf st -> (cnt st < kmax)%nat -> queue st = pd :: q' ->
+    n - lag_off < Z.of_nat (length (queue st)) -> ~ In pd (rec_ st).
+  Proof.
+    intros Hwf Hc Hq Hfull Hin. pose proof (wf_rec_recent st Hwf 0%nat pd) as H. rewrite Hq in H. specialize (H eq_refl Hin).
+    rewrite Hq in Hfull. lia.
+  Qed.
+
+  (* what one operation does to a live state *)
+  Lemma mstep_alive st o : dead st = false ->
+    mstep st o = match o with
+                 | MItem old a b => item_step st old a b
+                 | MEnd => (mkD (live st) (queue st) (next st) (dirs st) (live st) 0 false, [])
+                 | MRestart => (mkD (rec_ st) [] (next st) (dirs st) (rec_ st) 0 false, [])
+                 end.
+  Proof. intros H. unfold StoreM.mstep. now rewrite H. Qed.
+
+  Theorem wf_step st o : wf st -> valid st o -> dead (fst (mstep st o)) = false -> wf (fst (mstep st o)).
+  Proof.
+    intros Hwf Hv. pose proof (wf_alive st Hwf) as Ed. rewrite (mstep_alive st o Ed).
+    destruct Hv as [Hv|Hv]; [congruence|]. destruct Hwf as [W0 W1 W2 W3 W4 W5 W6 W7 W8 W9 W10].
+    assert (Hwf : wf st) by (constructor; assumption).
+    destruct o as [old a b| |].
+    - destruct Hv as (Hold & Hcnt). pose proof (W1 _ Hold) as Holdlt.
+      destruct (item_step_case st old a b) as [q2 Hq2| Hq0 Hneg | pd q' Hq Hfull Hg | pd q' q2 Hq Hfull Hg Hq2]; cbn [fst dead]; try discriminate; intros _.
+      + (* no deletion *)
+        assert (Hq2in : forall p, In p q2 -> p = old \/ In p (queue st)).
+        { destruct Hq2 as [-> | (-> & _)]; [now right|apply qpush_In]. }
+        constructor; cbn [live queue next dirs rec_ cnt dead].
+        * reflexivity.
+        * intros p Hp. apply replace_In in Hp. destruct Hp as [->|(Hp & _)]; [lia|apply W1 in Hp; lia].
+        * intros p Hp. apply Hq2in in Hp. destruct Hp as [->|Hp]; [lia|apply W2 in Hp; lia].
+        * intros p Hp. apply dir_set_keys in Hp. destruct Hp as [->|Hp]; [lia|apply W3 in Hp; lia].
+        * intros p Hp. apply W4 in Hp. lia.
+        * intros p Hp Hl. apply replace_In in Hl. destruct Hl as [->|(Hl & Hne)].
+          -- apply Hq2in in Hp. destruct Hp as [E|Hp]; [lia|apply W2 in Hp; lia].
+          -- apply Hq2in in Hp. destruct Hp as [E|Hp]; [contradiction|exact (W5 _ Hp Hl)].
+        * intros p Hp. destruct Hq2 as [-> | (-> & Hgd & _)]; [now apply W6|]. apply qpush_In in Hp. destruct Hp as [->|Hp]; [exact Hgd|now apply W6].
+        * intros p Hp. apply replace_In in Hp. destruct Hp as [->|(Hp & _)]; [apply complete_set_new|].
+          apply complete_set_other; [apply W1 in Hp; lia|now apply W7].
+        * intros p Hp. apply complete_set_other; [apply W4 in Hp; lia|now apply W8].
+        * intros k p Hk Hr. destruct Hq2 as [-> | (-> & _)]; [specialize (W9 k p Hk Hr); lia|].
+          destruct (qpush_length old (queue st)) as (L1 & L2).
+          apply qpush_nth in Hk. destruct Hk as [Hk|(-> & _ & E)]; [specialize (W9 k p Hk Hr); lia|]. lia.
+        * discriminate.
+      + (* the oldest replaced path is deleted *)
+        assert (Hpdq : In pd (queue st)) by (rewrite Hq; now left).
+        assert (Hnr : ~ In pd (rec_ st)) by (eapply head_not_in_rec; eauto).
+        assert (Hnl : ~ In pd (live st)) by now apply W5.
+        assert (Hpdlt : pd < next st) by now apply W2.
+        assert (Hq'in : forall p, In p q' -> In p (queue st)) by (intros p Hp; rewrite Hq; now right).
+        assert (Hq2in : forall p, In p q2 -> p = old \/ In p (queue st)).
+        { destruct Hq2 as [-> | ->]; intros p Hp; [right; now apply Hq'in|]. apply qpush_In in Hp. destruct Hp as [->|Hp]; [now left|right; now apply Hq'in]. }
+        constructor; cbn [live queue next dirs rec_ cnt dead].
+        * reflexivity.
+        * intros p Hp. apply replace_In in Hp. destruct Hp as [->|(Hp & _)]; [lia|apply W1 in Hp; lia].
+        * intros p Hp. apply Hq2in in Hp. destruct Hp as [->|Hp]; [lia|apply W2 in Hp; lia].
+        * intros p Hp. apply delete_path_keys, dir_set_keys in Hp. destruct Hp as [->|Hp]; [lia|apply W3 in Hp; lia].
+        * intros p Hp. apply W4 in Hp. lia.
+        * intros p Hp Hl. apply replace_In in Hl. destruct Hl as [->|(Hl & Hne)].
+          -- apply Hq2in in Hp. destruct Hp as [E|Hp]; [lia|apply W2 in Hp; lia].
+          -- apply Hq2in in Hp. destruct Hp as [E|Hp]; [contradiction|exact (W5 _ Hp Hl)].
+        * intros p Hp. apply Hq2in in Hp. destruct Hp as [->|Hp]; [exact Hg|now apply W6].
+        * intros p Hp. apply replace_In in Hp. destruct Hp as [->|(Hp & _)].
+          -- apply complete_other; [lia|apply complete_set_new].
+          -- apply complete_other; [intros ->; contradiction|]. apply complete_set_other; [apply W1 in Hp; lia|now apply W7].
+        * intros p Hp. apply complete_other; [intros ->; contradiction|]. apply complete_set_other; [apply W4 in Hp; lia|now apply W8].
+        * intros k p Hk Hr.
+          assert (Hshift : nth_error q' k = Some p -> (length q' - k <= cnt st)%nat).
+          { intros Hk'. pose proof (W9 (S k) p) as H. rewrite Hq in H. cbn [nth_error length] in H. specialize (H Hk' Hr). lia. }
+          destruct Hq2 as [-> | ->]; [specialize (Hshift Hk); lia|].
+          destruct (qpush_length old q') as (L1 & L2).
+          apply qpush_nth in Hk. destruct Hk as [Hk|(-> & _ & E)]; [specialize (Hshift Hk); lia|]. lia.
+        * discriminate.
+    - (* write_toml *)
+      cbn [fst dead]. intros _. constructor; cbn [live queue next dirs rec_ cnt dead]; auto.
+      intros k p Hk Hr. exfalso. apply (W5 p); [eapply nth_error_In; eauto|exact Hr].
+    - (* restart *)
+      cbn [fst dead]. intros _. rewrite (W10 Hv). constructor; cbn [live queue next dirs rec_ cnt dead]; auto;
+        try (now intros p []); try (intros k p Hk; destruct k; discriminate).
+  Qed.
+
+  (* ---- safety of every deletion, whether or not the step then crashes *)
+  Theorem delete_safe st o pd : wf st -> valid st o -> In (EDel pd) (snd (mstep st o)) ->
+    ~ In pd (live st) /\ ~ In pd (rec_ st) /\ ~ In pd (live (fst (mstep st o))) /\ n - guard_off < pd /\
+    (forall p, In p (live (fst (mstep st o))) \/ In p (rec_ st) -> complete (dirs (fst (mstep st o))) p).
+  Proof.
+    intros Hwf Hv. pose proof (wf_alive st Hwf) as Ed. rewrite (mstep_alive st o Ed).
+    destruct Hv as [Hv|Hv]; [congruence|].
+    destruct o as [old a b| |]; [|intros []|intros []].
+    destruct Hv as (Hold & Hcnt). pose proof (wf_live_lt st Hwf _ Hold) as Holdlt.
+    destruct (item_step_case st old a b) as [q2 Hq2| Hq0 Hneg | pd' q' Hq Hfull Hg | pd' q' q2 Hq Hfull Hg Hq2]; cbn [fst snd live dirs].
+    - intros [H|[]]. discriminate.
+    - intros [H|[H|[]]]; discriminate.
+    - intros [H|[H|[H|[]]]]; try discriminate. injection H as ->.
+      assert (Hpdq : In pd (queue st)) by (rewrite Hq; now left).
+      assert (Hnr : ~ In pd (rec_ st)) by (eapply head_not_in_rec; eauto).
+      assert (Hnl : ~ In pd (live st)) by now apply (wf_queue_not_live st Hwf).
+      repeat split; auto; [now apply (wf_queue_guard st Hwf)|].
+      intros p [Hp|Hp]; (apply complete_other; [intros ->; contradiction|]); apply complete_set_other.
+      + apply (wf_live_lt st Hwf) in Hp. lia.
+      + now apply (wf_live_complete st Hwf).
+      + apply (wf_rec_lt st Hwf) in Hp. lia.
+      + now apply (wf_rec_complete st Hwf).
+    - intros [H|[H|[]]]; try discriminate. injection H as ->.
+      assert (Hpdq : In pd (queue st)) by (rewrite Hq; now left).
+      assert (Hnr : ~ In pd (rec_ st)) by (eapply head_not_in_rec; eauto).
+      assert (Hnl : ~ In pd (live st)) by now apply (wf_queue_not_live st Hwf).
+      assert (Hpdlt : pd < next st) by now apply (wf_queue_lt st Hwf).
+      repeat split; auto.
+      + intros Hl. apply replace_In in Hl. destruct Hl as [->|(Hl & _)]; [lia|contradiction].
+      + now apply (wf_queue_guard st Hwf).
+      + intros p [Hp|Hp].
+        * apply replace_In in Hp. destruct Hp as [->|(Hp & _)].
+          -- apply complete_other; [lia|apply complete_set_new].
+          -- apply complete_other; [intros ->; contradiction|]. apply complete_set_other; [apply (wf_live_lt st Hwf) in Hp; lia|now apply (wf_live_complete st Hwf)].
+        * apply complete_other; [intros ->; contradiction|]. apply complete_set_other; [apply (wf_rec_lt st Hwf) in Hp; lia|now apply (wf_rec_complete st Hwf)].
+  Qed.
+End DelP.
